@@ -174,6 +174,8 @@ def check(run):
     run_cases(run, worker, cases)
     from props import C08_sym
     guarded(run, C08_sym.prove)
+    from props import C04_kernel
+    guarded(run, C04_kernel.prove, only_updates=True)      # renormalised-basis update (single root and state-averaged) in kernel-stub mode
     from props import C08_tree
     C08_tree.check(run)
     run.rule = ("small Hamiltonians with dense reference {spin+qn 4/6 sites, electron-phonon 4(6), spin 4, two-component qn} x 2 sectors x {1site, 2site} x "
